@@ -5,6 +5,7 @@ import (
 	"context"
 	"fmt"
 	"os"
+	"strings"
 	"sync"
 	"time"
 
@@ -18,7 +19,7 @@ const Level = "exploration"
 // Case is one timing scenario.
 type Case struct {
 	ID      int    `json:"id"`
-	Kind    string `json:"kind"` // inflight | ondemand | latency | afteridle | stream | idle | normal | reaper
+	Kind    string `json:"kind"` // inflight | ondemand | latency | afteridle | stream | idle | normal | overrun | reaper
 	BlockMs int    `json:"block_interval_ms"`
 	Ratio   int    `json:"idle_to_block_ratio"`
 	ProdPct int    `json:"production_duration_pct_of_block"`
@@ -29,10 +30,17 @@ type Case struct {
 	RatioPct int `json:"idle_to_block_ratio_pct,omitempty"`
 	// Variant (reaper): plain | held-submit | failing-submit | pair
 	Variant string `json:"variant,omitempty"`
+	// SlowPct (overrun): durations, in percent of the block interval, of the few productions that overrun the interval;
+	// all other productions of the run take ProdPct
+	SlowPct []int `json:"slow_production_pct_of_block,omitempty"`
 }
 
 func (c Case) key() string {
-	return fmt.Sprintf("%s b%d r%d/%d p%d %v s%v %s", c.Kind, c.BlockMs, c.Ratio, c.RatioPct, c.ProdPct, c.Offsets, c.Storm, c.Variant)
+	k := fmt.Sprintf("%s b%d r%d/%d p%d %v s%v %s", c.Kind, c.BlockMs, c.Ratio, c.RatioPct, c.ProdPct, c.Offsets, c.Storm, c.Variant)
+	if len(c.SlowPct) > 0 {
+		k += fmt.Sprintf(" slow%v", c.SlowPct)
+	}
+	return k
 }
 
 // recorder replaces the production function: it logs starts and ends and can hold a production in flight.
@@ -42,6 +50,8 @@ type recorder struct {
 	ends   []time.Time
 	dur    time.Duration
 	hold   chan struct{} // when non-nil, a production blocks until it can receive
+	// slow: productions (by call index) that take this long instead of dur
+	slow map[int]time.Duration
 }
 
 func newRecorder(dur time.Duration) *recorder { return &recorder{dur: dur} }
@@ -49,6 +59,10 @@ func newRecorder(dur time.Duration) *recorder { return &recorder{dur: dur} }
 func (r *recorder) publish(ctx context.Context) error {
 	now := time.Now() // taken before the lock: the driver polls under the same lock
 	r.mu.Lock()
+	dur := r.dur
+	if d, ok := r.slow[len(r.starts)]; ok {
+		dur = d
+	}
 	r.starts = append(r.starts, now)
 	hold := r.hold
 	r.mu.Unlock()
@@ -57,9 +71,9 @@ func (r *recorder) publish(ctx context.Context) error {
 		case <-hold:
 		case <-ctx.Done():
 		}
-	} else if r.dur > 0 {
+	} else if dur > 0 {
 		select {
-		case <-time.After(r.dur):
+		case <-time.After(dur):
 		case <-ctx.Done():
 		}
 	}
@@ -140,7 +154,7 @@ func (c Case) intervals() (block, idle time.Duration) {
 
 func startNode(ctx context.Context, c Case, rec *recorder) (*world.Node, chan struct{}, error) {
 	block, lazy := c.intervals()
-	n, err := world.NewNode(ctx, world.NodeOpts{Aggregator: true, Lazy: c.Kind != "normal", BlockTime: block, LazyInterval: lazy},
+	n, err := world.NewNode(ctx, world.NodeOpts{Aggregator: true, Lazy: c.Kind != "normal" && c.Kind != "overrun", BlockTime: block, LazyInterval: lazy},
 		world.NewKeys("proposer"), world.NewMemDS(world.NewImage()), world.NewExecDouble(), world.NewSeqDouble(), world.NewDADouble(), nil)
 	if err != nil {
 		return nil, nil, err
@@ -188,6 +202,12 @@ func runOnce(r *vk.Run, c Case) *obs {
 	ctx, cancel := context.WithCancel(context.Background())
 	block, idleIv := c.intervals()
 	rec := newRecorder(block * time.Duration(c.ProdPct) / 100)
+	if c.Kind == "overrun" {
+		rec.slow = map[int]time.Duration{}
+		for k, p := range c.SlowPct {
+			rec.slow[overrunFirst+k*overrunEvery] = block * time.Duration(p) / 100
+		}
+	}
 	if c.Kind == "inflight" {
 		rec.hold = make(chan struct{})
 	}
@@ -469,11 +489,66 @@ func runOnce(r *vk.Run, c Case) *obs {
 		default:
 			r.Hit("cadence-lower")
 		}
+	case "overrun":
+		// normal mode; a few productions overrun the block interval by whole intervals, all others are short. "Once per
+		// block interval" also holds for the blocks that follow an overrun: the time an overrun took is gone, it is not owed.
+		// Judged on a fact load cannot fake: three blocks started within less than one block interval. (Two can be: a
+		// loop that paces itself by a fixed-phase ticker starts the block that is overdue and the next one at its grid
+		// point; that conforms and is why single short gaps are not judged here.) The first timer re-arm is at least one
+		// interval after the start it follows and timers do not fire early, so on a loop that re-arms relative to its
+		// last start - or to the next point of a fixed grid - three starts span two intervals whatever the load is.
+		stop := make(chan struct{})
+		defer close(stop)
+		if c.Storm {
+			go func() {
+				for {
+					select {
+					case <-stop:
+						return
+					default:
+						n.M.NotifyNewTransactions()
+						time.Sleep(500 * time.Microsecond)
+					}
+				}
+			}()
+		}
+		total := overrunFirst + len(c.SlowPct)*overrunEvery
+		if !rec.waitStarts(total, lostWatchdog) {
+			o.cand("cadence-lower", fmt.Sprintf("normal mode, block interval %v, productions %d.. of which %d overran the interval: only %d blocks started within %v (nominal %v)", block, total, len(c.SlowPct), rec.nStarts(), lostWatchdog, time.Duration(total)*block), wit(""))
+			return o
+		}
+		st := rec.allStarts()
+		bursts := 0
+		var notes []string
+		for k := range c.SlowPct {
+			s := overrunFirst + k*overrunEvery // index of the production that overran
+			r.Hit("no-burst-after-overrun")
+			short, burst := 0, false
+			for j := s + 1; j < s+overrunEvery && j < len(st); j++ {
+				if st[j].Sub(st[j-1]) < shortGap(block) {
+					short++
+				}
+				if j+1 < s+overrunEvery && j+1 < len(st) && j > s+1 && st[j+1].Sub(st[j-1]) < shortGap(block) {
+					burst = true
+				}
+			}
+			r.Count("start_to_start_gaps_after_overrun_measured", int64(overrunEvery-1))
+			r.Count("short_gaps_after_overrun", int64(short))
+			if burst {
+				bursts++
+				notes = append(notes, fmt.Sprintf("production #%d took %d %% of the interval; starts after it (ms after its end): %s", s, c.SlowPct[k], relMs(st[s+1:s+overrunEvery], rec.end(s))))
+			}
+		}
+		if bursts*2 > len(c.SlowPct) {
+			o.cand("no-burst-after-overrun", fmt.Sprintf("normal mode, block interval %v: after %d of %d productions that overran the interval three or more blocks were started within less than 95 %% of ONE block interval (blocks are to be produced once per block interval): %v", block, bursts, len(c.SlowPct), notes), wit("overran: productions #"+fmt.Sprint(overrunIdx(len(c.SlowPct)))))
+		} else if bursts > 0 {
+			r.Count("isolated_bursts_after_overrun_not_judged", int64(bursts))
+		}
 	}
 	// every lazy-mode scenario: start-to-start gaps over the whole run (also from an on-demand block to a following
 	// idle block). Not in normal mode: there the statement fixes the rate ("once per block interval"), which the mean-gap
 	// bound above judges; a fixed-phase ticker, whose individual gaps shrink after a late start, conforms to it.
-	if st := rec.allStarts(); len(st) >= 2 && c.Kind != "normal" {
+	if st := rec.allStarts(); len(st) >= 2 && c.Kind != "normal" && c.Kind != "overrun" {
 		short := 0
 		minG := time.Hour
 		for i := 1; i < len(st); i++ {
@@ -494,6 +569,28 @@ func runOnce(r *vk.Run, c Case) *obs {
 		}
 	}
 	return o
+}
+
+// overrun scenario: production #overrunFirst and every overrunEvery-th after it overrun the block interval
+const (
+	overrunFirst = 3
+	overrunEvery = 8
+)
+
+func overrunIdx(n int) []int {
+	var ix []int
+	for k := 0; k < n; k++ {
+		ix = append(ix, overrunFirst+k*overrunEvery)
+	}
+	return ix
+}
+
+func relMs(ts []time.Time, base time.Time) string {
+	var b []string
+	for _, t := range ts {
+		b = append(b, fmt.Sprintf("%.1f", float64(t.Sub(base).Microseconds())/1000))
+	}
+	return "[" + strings.Join(b, " ") + "]"
 }
 
 // judgeUpper is the exact upper cadence bound on the recorder's own timestamps: n gaps cannot span less than n
@@ -558,7 +655,7 @@ func run(r *vk.Run, c Case) {
 	for _, s := range o.inconc {
 		r.Inconclusive(s)
 	}
-	r.Eval(c.key(), len(c.Offsets) > 0 || c.Storm, c)
+	r.Eval(c.key(), len(c.Offsets) > 0 || c.Storm || len(c.SlowPct) > 0, c)
 }
 
 // Run is the check entry point.
@@ -647,6 +744,14 @@ func Run(r *vk.Run) {
 		add(Case{Kind: "restart", BlockMs: 120, Variant: "lazy", Storm: true})
 		add(Case{Kind: "restart", BlockMs: 120, Variant: "normal"})
 	}
+	// generated last: the cases above are the same as before these existed
+	for k := 0; k < r.N(2, 16); k++ {
+		for _, b := range []int{20, 30} {
+			slow := []int{220 + rng.Intn(61), 320 + rng.Intn(61), 420 + rng.Intn(61)}
+			rng.Shuffle(len(slow), func(a, b int) { slow[a], slow[b] = slow[b], slow[a] })
+			add(Case{Kind: "overrun", BlockMs: b, ProdPct: []int{0, 30}[k%2], Storm: (k+b/10)%2 == 0, SlowPct: slow})
+		}
+	}
 	var wg sync.WaitGroup
 	ch := make(chan Case)
 	for w := 0; w < 6; w++ {
@@ -669,4 +774,5 @@ func Run(r *vk.Run) {
 	r.Require("cadence", 4)
 	r.Require("cadence-lower", 3)
 	r.Require("reaper-notify", 3)
+	r.Require("no-burst-after-overrun", 6)
 }
